@@ -214,8 +214,30 @@ def _run_cases(adapter, graph, cases, stop_after):
             if all(ev.get("out") == "Unmodelled" for ev, _ in alts):
                 stats["unmodelled_cases"] += 1
                 continue
-            obs_ev = adapter.step(sut, ev0)
-            obs_state = adapter.observe(sut)
+            try:
+                obs_ev = adapter.step(sut, ev0)
+                obs_state = adapter.observe(sut)
+            except Exception as exc:  # noqa
+                # the real objects are in a condition the projection cannot even read (on the
+                # unchanged tree this never happens): that is a difference from the specification,
+                # not a failure of the machinery
+                import traceback
+
+                stats["cases"] += 1
+                mismatches.append(
+                    Mismatch(
+                        "observation-raised",
+                        init_state,
+                        path,
+                        ev0,
+                        [{"ev": ev, "to": to} for ev, to in alts],
+                        {"exception": "%s: %s" % (type(exc).__name__, exc), "traceback": traceback.format_exc()[-1500:]},
+                        "observation-raised: performing or observing the step raised %s: %s" % (type(exc).__name__, str(exc)[:200]),
+                    )
+                )
+                if len(mismatches) >= stop_after:
+                    break
+                continue
             stats["steps"] += 1
             stats["cases"] += 1
             opname = ev0.get("op", "?")
